@@ -8,13 +8,17 @@
 (* that contains every exceptional configuration, the abstract group       *)
 (* Z x Z_l that the labelled points must realise, the curve orders, the    *)
 (* published e(g1,g2) and bilinearity of the textbook pairing.             *)
-(* One TLC state per task; the invariant evaluates the task.               *)
+(* One TLC state per task; the invariant evaluates the task.  (Expensive   *)
+(* checks take a dummy parameter: TLC evaluates zero-arity constant-level  *)
+(* definitions eagerly at start-up, in every shard.)                       *)
 (***************************************************************************)
 EXTENDS JPairing, TLC, IOUtils
 
 VARIABLE task
 NTasks == 60
-Init == task \in 1..NTasks
+(* the driver shards the task list over several TLC processes: tasks LO..HI with task % SHARDS = SHARD *)
+Env(name, dflt) == IF name \in DOMAIN IOEnv THEN atoi(IOEnv[name]) ELSE dflt
+Init == task \in {t \in Env("MATH_LO", 1)..Env("MATH_HI", NTasks) : t % Env("MATH_SHARDS", 1) = Env("MATH_SHARD", 0)}
 Next == UNCHANGED task
 
 (* pseudo-random field elements: powers of small bases *)
@@ -52,7 +56,7 @@ F12Laws(i) == LET a == S12(i) b == S12(i + 100) c == S12(i + 200) IN
 UU == << <<<<Zero, One>>, F2Zero, F2Zero>>, F6Zero >>
 VV == << <<F2Zero, F2One, F2Zero>>, F6Zero >>
 WW == << F6Zero, <<F2One, F2Zero, F2Zero>> >>
-Generators ==
+Generators(dummy) ==
   /\ F12Mul(UU, UU) = F12Neg(F12One)
   /\ F12Mul(VV, F12Mul(VV, VV)) = F12Add(F12One, UU)
   /\ F12Mul(WW, WW) = VV
@@ -87,25 +91,25 @@ Orders(i) ==
   /\ E1!PMul(E1!PMul(P1, HEff1), R) = <<>>               \* [h_eff] lands in the subgroup
   /\ E2!PMul(E2!PMul(P2, HEff2), R) = <<>>
 
-PairingAnchor == Pairing(Gen1, Gen2) = RelicGT
+PairingAnchor(dummy) == Pairing(Gen1, Gen2) = RelicGT
 (* bilinearity of the textbook pairing itself on small multiples *)
 Bilinear(a, b) ==
   Pairing(E1!PMulInt(Gen1, a), E2!PMulInt(Gen2, b)) = F12Pow(RelicGT, FromInt(a * b))
-FinalExpSplit == LET f == S12(7) IN FinalExp(f) = FinalExpDef(f)
-PairingDegenerate == Pairing(<<>>, Gen2) = F12One /\ Pairing(Gen1, <<>>) = F12One
-GTOrder == F12Pow(RelicGT, R) = F12One /\ RelicGT # F12One
+FinalExpSplit(dummy) == LET f == S12(7) IN FinalExp(f) = FinalExpDef(f)
+PairingDegenerate(dummy) == Pairing(<<>>, Gen2) = F12One /\ Pairing(Gen1, <<>>) = F12One
+GTOrder(dummy) == F12Pow(RelicGT, R) = F12One /\ RelicGT # F12One
 
 TaskOK ==
   CASE task \in 1..8   -> F2Laws(task)
     [] task \in 9..14  -> F6Laws(task)
     [] task \in 15..18 -> F12Laws(task)
-    [] task = 19       -> Generators
+    [] task = 19       -> Generators(task)
     [] task \in 20..32 -> FrobDefs(task - 20)
     [] task \in 33..47 -> Assoc1(task - 32) /\ Refine1(task - 32)
     [] task \in 48..54 -> Assoc2(task - 47)
     [] task \in 55..56 -> Orders(task)
-    [] task = 57       -> PairingAnchor /\ PairingDegenerate
+    [] task = 57       -> PairingAnchor(task) /\ PairingDegenerate(task)
     [] task = 58       -> Bilinear(2, 3)
-    [] task = 59       -> GTOrder
-    [] task = 60       -> IF IOEnv.VERIF_TIER = "thorough" THEN FinalExpSplit ELSE TRUE
+    [] task = 59       -> GTOrder(task)
+    [] task = 60       -> IF IOEnv.VERIF_TIER = "thorough" THEN FinalExpSplit(task) ELSE TRUE
 =============================================================================
